@@ -382,6 +382,8 @@ theorem decValue_out (k : NumLit.Kind) (p : Parts) (ip fp : List Nat)
   unfold decValue
   simp only [hc, hl, hle]
 
+theorem prod_exp (n : Nat) : (0 : Int) - (n : Int) + 0 = -(n : Int) + ((0 : Nat) : Int) := by omega
+
 theorem decValue_si (k : NumLit.Kind) (p : Parts) (ip fp : List Nat)
     (hip : ∀ c ∈ ip, OkByte 10 c) (hfp : ∀ c ∈ fp, OkByte 10 c)
     (h1 : p.intDs = ip.filter (· != 95)) (h2 : p.fracDs = fp.filter (· != 95))
@@ -389,8 +391,7 @@ theorem decValue_si (k : NumLit.Kind) (p : Parts) (ip fp : List Nat)
     (w3 : (nDigits fp : Int) ≤ 100000)
     (w4 : (-100000 : Int) ≤ 0 - (nDigits fp : Int) + (Dec.numDigits (digitsVal 10 (ip ++ fp)) : Int) - 1)
     (w5 : 0 - (nDigits fp : Int) + (Dec.numDigits (digitsVal 10 (ip ++ fp)) : Int) - 1 ≤ 100000)
-    (hi : ∃ z : Int, mantissa ip fp * ((mulValue i bin : Nat) : Rat) = (z : Rat))
-    (hf : Fits prec ⟨((digitsVal 10 (ip ++ fp) * mulValue i bin : Nat) : Int), 0⟩) :
+    (hi : ∃ z : Int, mantissa ip fp * ((mulValue i bin : Nat) : Rat) = (z : Rat)) :
     ∃ n, decValue k p = .ok n ∧ n.k = .int ∧
       toRat n.d = ((truncNonneg (mantissa ip fp * ((mulValue i bin : Nat) : Rat)) : Int) : Rat) := by
   have hc : horner 10 (p.intDs ++ p.fracDs) = digitsVal 10 (ip ++ fp) := by
@@ -400,27 +401,15 @@ theorem decValue_si (k : NumLit.Kind) (p : Parts) (ip fp : List Nat)
     (if p.expNeg then -(horner 10 p.expDs : Int) else (horner 10 p.expDs : Int)) (nDigits fp) 0
     (by simp [he]) (by omega) (by omega) w3 w4 w5
   obtain ⟨z, hz⟩ := hi
-  -- the product before rounding
-  have hfit : Fits prec (Dec.mul ⟨(digitsVal 10 (ip ++ fp) : Nat), 0 - (nDigits fp : Int)⟩ ⟨(mulValue i bin : Nat), 0⟩) := by
-    obtain ⟨c, j, hc1, hc2⟩ := hf
-    refine ⟨c, j, hc1, ?_⟩
-    show ((digitsVal 10 (ip ++ fp) : Nat) : Int) * ((mulValue i bin : Nat) : Int) = _
-    rw [← hc2]; simp
-  obtain ⟨q, kk, hr, hq⟩ := round_fits prec _ hfit
-  have hq' : q * 10 ^ kk = z * 10 ^ nDigits fp := by
-    rw [hq]
-    show ((digitsVal 10 (ip ++ fp) : Nat) : Int) * ((mulValue i bin : Nat) : Int) = _
-    rw [digitsVal_append]
+  -- the exact product
+  have hq' : (((digitsVal 10 (ip ++ fp) : Nat) : Int) * ((mulValue i bin : Nat) : Int)) * 10 ^ 0
+      = z * 10 ^ nDigits fp := by
+    rw [Int.pow_zero, Int.mul_one, digitsVal_append]
     exact si_int _ _ _ _ z hz
-  have hexp : (Dec.mul ⟨(digitsVal 10 (ip ++ fp) : Nat), 0 - (nDigits fp : Int)⟩ ⟨(mulValue i bin : Nat), 0⟩).exp + (kk : Int)
-      = -(nDigits fp : Int) + (kk : Int) := by
-    show 0 - (nDigits fp : Int) + 0 + (kk : Int) = _
-    omega
-  rw [hexp] at hr
-  have hti := toIntegralExact_of q z kk (nDigits fp) hq'
+  have hti := toIntegralExact_of _ z 0 (nDigits fp) hq'
   refine ⟨⟨.int, ⟨z, 0⟩⟩, ?_, rfl, ?_⟩
   · unfold decValue
-    simp only [hc, hl, hle, hm, round34, hr, hti]
+    simp only [hc, hl, hle, hm, Dec.mul, prod_exp, hti]
   · show toRat ⟨z, 0⟩ = _
     rw [toRat_int, floor_int _ z hz, hz]
 
@@ -870,7 +859,7 @@ theorem parts_siDot (fp : List Nat) (m : Multiplier) (hwf : (Lit.siDot fp m).wf 
 
 theorem lit_si (ip : List Nat) (fp : Option (List Nat)) (m : Multiplier)
     (hwf : (Lit.si ip fp m).wf = true) (hw : (Lit.si ip fp m).inWindow)
-    (hi : (Lit.si ip fp m).siIntegral) (hf : (Lit.si ip fp m).siFits prec) :
+    (hi : (Lit.si ip fp m).siIntegral) :
     ∃ n, readValue (Lit.si ip fp m).kind (Lit.si ip fp m).spell = .ok n ∧ n.k = (Lit.si ip fp m).kind ∧
       toRat n.d = (Lit.si ip fp m).denote := by
   have hparts := parts_si .int ip fp m hwf
@@ -881,7 +870,7 @@ theorem lit_si (ip : List Nat) (fp : Option (List Nat)) (m : Multiplier)
   have := decValue_si .int
     { intDs := ip.filter (· != 95), fracDs := (optSpell fp).filter (· != 95),
       mul := some (m.letter.rank, m.iec) } ip (optSpell fp) hip hfp rfl rfl m.letter.rank m.iec rfl rfl w3 w4 w5
-    (by rw [mulValue_eq]; exact hi) (by rw [mulValue_eq]; exact hf)
+    (by rw [mulValue_eq]; exact hi)
   rw [mulValue_eq] at this
   obtain ⟨n, h1, h2, h3⟩ := this
   exact ⟨n, hparts.trans h1, h2, h3⟩
@@ -897,7 +886,7 @@ theorem lit_si_out (ip : List Nat) (fp : Option (List Nat)) (m : Multiplier)
 
 theorem lit_siDot (fp : List Nat) (m : Multiplier)
     (hwf : (Lit.siDot fp m).wf = true) (hw : (Lit.siDot fp m).inWindow)
-    (hi : (Lit.siDot fp m).siIntegral) (hf : (Lit.siDot fp m).siFits prec) :
+    (hi : (Lit.siDot fp m).siIntegral) :
     ∃ n, readValue (Lit.siDot fp m).kind (Lit.siDot fp m).spell = .ok n ∧ n.k = (Lit.siDot fp m).kind ∧
       toRat n.d = (Lit.siDot fp m).denote := by
   have hparts := parts_siDot fp m hwf
@@ -907,7 +896,7 @@ theorem lit_siDot (fp : List Nat) (m : Multiplier)
   have := decValue_si .int
     { intDs := ([] : List Nat).filter (· != 95), fracDs := fp.filter (· != 95),
       mul := some (m.letter.rank, m.iec) } [] fp (nil_ok 10) hfp rfl rfl m.letter.rank m.iec rfl rfl w3 w4 w5
-    (by rw [mulValue_eq]; exact hi) (by rw [mulValue_eq]; exact hf)
+    (by rw [mulValue_eq]; exact hi)
   rw [mulValue_eq] at this
   obtain ⟨n, h1, h2, h3⟩ := this
   exact ⟨n, hparts.trans h1, h2, h3⟩
@@ -961,7 +950,7 @@ theorem si_rat (A B n M : Nat) (z : Int)
     Rat.natCast_ofNat, Rat.intCast_pow, Rat.intCast_ofNat] at h'
   grind
 
-/-- an accepted multiplied spelling (product fits the precision) has an integral value -/
+/-- an accepted multiplied spelling has an integral value -/
 theorem decValue_si_integral (k : NumLit.Kind) (p : Parts) (ip fp : List Nat)
     (hip : ∀ c ∈ ip, OkByte 10 c) (hfp : ∀ c ∈ fp, OkByte 10 c)
     (h1 : p.intDs = ip.filter (· != 95)) (h2 : p.fracDs = fp.filter (· != 95))
@@ -969,7 +958,6 @@ theorem decValue_si_integral (k : NumLit.Kind) (p : Parts) (ip fp : List Nat)
     (w3 : (nDigits fp : Int) ≤ 100000)
     (w4 : (-100000 : Int) ≤ 0 - (nDigits fp : Int) + (Dec.numDigits (digitsVal 10 (ip ++ fp)) : Int) - 1)
     (w5 : 0 - (nDigits fp : Int) + (Dec.numDigits (digitsVal 10 (ip ++ fp)) : Int) - 1 ≤ 100000)
-    (hf : Fits prec ⟨((digitsVal 10 (ip ++ fp) * mulValue i bin : Nat) : Int), 0⟩)
     (n : Num) (h : decValue k p = .ok n) :
     ∃ z : Int, mantissa ip fp * ((mulValue i bin : Nat) : Rat) = (z : Rat) := by
   have hc : horner 10 (p.intDs ++ p.fracDs) = digitsVal 10 (ip ++ fp) := by
@@ -978,53 +966,40 @@ theorem decValue_si_integral (k : NumLit.Kind) (p : Parts) (ip fp : List Nat)
   have hle := litExp_in (digitsVal 10 (ip ++ fp)) p.hasExp
     (if p.expNeg then -(horner 10 p.expDs : Int) else (horner 10 p.expDs : Int)) (nDigits fp) 0
     (by simp [he]) (by omega) (by omega) w3 w4 w5
-  have hfit : Fits prec (Dec.mul ⟨(digitsVal 10 (ip ++ fp) : Nat), 0 - (nDigits fp : Int)⟩ ⟨(mulValue i bin : Nat), 0⟩) := by
-    obtain ⟨c, j, hc1, hc2⟩ := hf
-    refine ⟨c, j, hc1, ?_⟩
-    show ((digitsVal 10 (ip ++ fp) : Nat) : Int) * ((mulValue i bin : Nat) : Int) = _
-    rw [← hc2]; simp
-  obtain ⟨q, kk, hr, hq⟩ := round_fits prec _ hfit
-  have hexp : (Dec.mul ⟨(digitsVal 10 (ip ++ fp) : Nat), 0 - (nDigits fp : Int)⟩ ⟨(mulValue i bin : Nat), 0⟩).exp + (kk : Int)
-      = -(nDigits fp : Int) + (kk : Int) := by
-    show 0 - (nDigits fp : Int) + 0 + (kk : Int) = _
-    omega
-  rw [hexp] at hr
   unfold decValue at h
-  simp only [hc, hl, hle, hm, round34, hr] at h
-  cases hti : toIntegralExact ⟨q, -(nDigits fp : Int) + (kk : Int)⟩ with
+  simp only [hc, hl, hle, hm, Dec.mul, prod_exp] at h
+  cases hti : toIntegralExact
+      ⟨((digitsVal 10 (ip ++ fp) : Nat) : Int) * ((mulValue i bin : Nat) : Int),
+        -(nDigits fp : Int) + ((0 : Nat) : Int)⟩ with
   | none => rw [hti] at h; cases h
   | some z =>
     refine ⟨z, ?_⟩
-    have hz := toIntegralExact_some q z kk (nDigits fp) hti
-    rw [hq] at hz
-    have hz' : ((digitsVal 10 (ip ++ fp) : Nat) : Int) * ((mulValue i bin : Nat) : Int) = z * 10 ^ nDigits fp := hz
-    rw [digitsVal_append] at hz'
-    exact si_rat _ _ _ _ z hz'
+    have hz := toIntegralExact_some _ z 0 (nDigits fp) hti
+    rw [Int.pow_zero, Int.mul_one, digitsVal_append] at hz
+    exact si_rat _ _ _ _ z hz
 
 theorem lit_si_integral (ip : List Nat) (fp : Option (List Nat)) (m : Multiplier)
     (hwf : (Lit.si ip fp m).wf = true)
-    (hw : (Lit.si ip fp m).inWindow) (hf : (Lit.si ip fp m).siFits prec)
+    (hw : (Lit.si ip fp m).inWindow)
     (n : Num) (h : readValue .int (Lit.si ip fp m).spell = .ok n) : (Lit.si ip fp m).siIntegral := by
   rw [parts_si .int ip fp m hwf] at h
   simp only [Lit.wf, Bool.and_eq_true] at hwf
   have hip := wfDigits_ok 10 ip hwf.1
   have hfp := optWf_ok fp hwf.2
   obtain ⟨_, _, w3, w4, w5⟩ := hw
-  have := decValue_si_integral .int _ ip (optSpell fp) hip hfp rfl rfl m.letter.rank m.iec rfl rfl w3 w4 w5
-    (by rw [mulValue_eq]; exact hf) n h
+  have := decValue_si_integral .int _ ip (optSpell fp) hip hfp rfl rfl m.letter.rank m.iec rfl rfl w3 w4 w5 n h
   rw [mulValue_eq] at this
   exact this
 
 theorem lit_siDot_integral (fp : List Nat) (m : Multiplier)
     (hwf : (Lit.siDot fp m).wf = true)
-    (hw : (Lit.siDot fp m).inWindow) (hf : (Lit.siDot fp m).siFits prec)
+    (hw : (Lit.siDot fp m).inWindow)
     (n : Num) (h : readValue .int (Lit.siDot fp m).spell = .ok n) : (Lit.siDot fp m).siIntegral := by
   rw [parts_siDot fp m hwf] at h
   simp only [Lit.wf] at hwf
   have hfp := wfDigits_ok 10 fp hwf
   obtain ⟨_, _, w3, w4, w5⟩ := hw
-  have := decValue_si_integral .int _ [] fp (nil_ok 10) hfp rfl rfl m.letter.rank m.iec rfl rfl w3 w4 w5
-    (by rw [mulValue_eq]; exact hf) n h
+  have := decValue_si_integral .int _ [] fp (nil_ok 10) hfp rfl rfl m.letter.rank m.iec rfl rfl w3 w4 w5 n h
   rw [mulValue_eq] at this
   exact this
 
